@@ -2,6 +2,18 @@
 import re
 
 
+# astq's JSON objects are key-sorted (serde_json default); restore source order of children
+_PRIO = {"attrs": 0, "pat": 1, "scrutinee": 1, "cond": 1, "recv": 1, "func": 1, "base": 1, "left": 1, "lo": 1, "iter": 1,
+         "e": 2, "init": 2, "inputs": 2, "guard": 2, "index": 3, "args": 3, "then": 3, "arms": 3, "hi": 3,
+         "body": 4, "right": 4, "else": 5, "elems": 3, "fields": 3, "rest": 6, "value": 3, "items": 4, "item": 4}
+
+
+def _children(n):
+    ks = [k for k, v in n.items() if isinstance(v, (dict, list))]
+    ks.sort(key=lambda k: (_PRIO.get(k, 3), k))
+    return ks
+
+
 def walk(node):
     """Yield every dict node (depth-first, document order)."""
     stack = [node]
@@ -9,9 +21,8 @@ def walk(node):
         n = stack.pop()
         if isinstance(n, dict):
             yield n
-            for v in reversed(list(n.values())):
-                if isinstance(v, (dict, list)):
-                    stack.append(v)
+            for k in reversed(_children(n)):
+                stack.append(n[k])
         elif isinstance(n, list):
             for v in reversed(n):
                 if isinstance(v, (dict, list)):
@@ -178,9 +189,8 @@ def walk_path(node, path=()):
     """Yield (dict node, path) where path is a tuple of (parent dict, key) pairs from the root."""
     if isinstance(node, dict):
         yield node, path
-        for k, v in node.items():
-            if isinstance(v, (dict, list)):
-                yield from walk_path(v, path + ((node, k),))
+        for k in _children(node):
+            yield from walk_path(node[k], path + ((node, k),))
     elif isinstance(node, list):
         for v in node:
             if isinstance(v, (dict, list)):
